@@ -589,7 +589,9 @@ impl C12 {
         }
         let mut version = 1u32;
         for (sn, op) in ops.iter().enumerate() {
-            let files_now: Vec<PathBuf> = dirs.iter().flat_map(|(_, p)| std::fs::read_dir(p).into_iter().flatten().flatten().map(|e| e.path()).filter(|p| p.is_file() && p.file_name().map_or(false, |n| n != "zz_sentinel.txt"))).collect();
+            let mut files_now: Vec<PathBuf> = dirs.iter().flat_map(|(_, p)| std::fs::read_dir(p).into_iter().flatten().flatten().map(|e| e.path()).filter(|p| p.is_file() && p.file_name().map_or(false, |n| n != "zz_sentinel.txt"))).collect();
+            // read_dir order is unspecified: sort, so that a replay performs the same operations
+            files_now.sort();
             let desc;
             match op {
                 RealOp::Write { dir, name, ext, value } => {
@@ -635,53 +637,66 @@ impl C12 {
                     }
                 }
             }
-            // barrier: the sentinel file is touched last; inotify queues are FIFO
-            version += 1;
-            let before = sentinel.last_reload_id();
-            std::fs::write(root.join("zz_sentinel.txt"), format!("{version}")).expect("write");
-            if !wait_until(
-                || {
+            // The barrier is state-based: "the sentinel was reloaded after its file was written". A notification
+            // left over from an earlier step (one write yields several) can satisfy it before this step's own
+            // notifications were consumed, so a mismatch is only a violation if it persists over further barriers:
+            // every barrier consumes more of the (FIFO) notification queue, a lost notification never arrives.
+            let mut problem: Option<(&'static str, String)> = None;
+            for attempt in 0..6 {
+                version += 1;
+                let before = sentinel.last_reload_id();
+                std::fs::write(root.join("zz_sentinel.txt"), format!("{version}")).expect("write");
+                if !wait_until(
+                    || {
+                        cache.hot_reload();
+                        sentinel.last_reload_id() != before && sentinel.read().0 == format!("{version}")
+                    },
+                    30,
+                ) {
+                    out.fail("real-watcher-stopped", format!("real history, step {sn} ({desc}): a modification of a watched file was not applied within 30 s of polling hot_reload"));
+                    return true;
+                }
+                // a few more passes: the events of this step were queued before the sentinel's
+                for _ in 0..3 {
                     cache.hot_reload();
-                    sentinel.last_reload_id() != before
-                },
-                30,
-            ) {
-                out.fail("real-watcher-stopped", format!("real history, step {sn} ({desc}): a modification of a watched file was not applied within 30 s of polling hot_reload"));
+                }
+                problem = None;
+                for (id, p) in &dirs {
+                    let expect = disk_listing(p);
+                    let expect: Vec<String> = expect.iter().filter(|s| !(id.is_empty() && *s == "zz_sentinel")).map(|s| if id.is_empty() { s.clone() } else { format!("{id}.{s}") }).collect();
+                    if let Some(h) = cache.get_cached::<assets_manager::Directory<Txt>>(id) {
+                        let got: Vec<String> = h.read().ids().map(|s| s.to_string()).filter(|s| s != "zz_sentinel").collect();
+                        if std::env::var("VERIF_TRACE").is_ok() {
+                            eprintln!("real step {sn} ({desc}) attempt {attempt}: dir {id:?} handle {got:?} disk {expect:?}");
+                        }
+                        if got != expect && problem.is_none() {
+                            let sig = if id.is_empty() {
+                                "real-root-listing-stale"
+                            } else if desc.starts_with("rename") {
+                                "real-rename-listing-stale"
+                            } else {
+                                "real-listing-stale"
+                            };
+                            problem = Some((sig, format!("real history, step {sn} ({desc}): the directory handle of {id:?} lists {got:?} but the disk has {expect:?}")));
+                        }
+                    }
+                }
+                // loaded assets follow the disk (incl. falling back to the other extension after a delete)
+                if let Some(h) = cache.get_cached::<Txt>("sub.two") {
+                    if let Ok(fresh) = cache.load_owned::<Txt>("sub.two") {
+                        if h.read().0 != fresh.0 && problem.is_none() {
+                            problem = Some(("real-asset-stale", format!("real history, step {sn} ({desc}): asset sub.two holds {:?} but loading it afresh gives {:?}", h.read().0, fresh.0)));
+                        }
+                    }
+                }
+                if problem.is_none() {
+                    break;
+                }
+                std::thread::sleep(Duration::from_millis(20 << attempt));
+            }
+            if let Some((sig, what)) = problem {
+                out.fail(sig, format!("{what} (persisting over 6 barriers)"));
                 return true;
-            }
-            // a few more passes: the events of this step were queued before the sentinel's
-            for _ in 0..3 {
-                cache.hot_reload();
-            }
-            for (id, p) in &dirs {
-                let expect = disk_listing(p);
-                let expect: Vec<String> = expect.iter().filter(|s| !(id.is_empty() && *s == "zz_sentinel")).map(|s| if id.is_empty() { s.clone() } else { format!("{id}.{s}") }).collect();
-                if let Some(h) = cache.get_cached::<assets_manager::Directory<Txt>>(id) {
-                    let got: Vec<String> = h.read().ids().map(|s| s.to_string()).filter(|s| s != "zz_sentinel").collect();
-                    if std::env::var("VERIF_TRACE").is_ok() {
-                        eprintln!("real step {sn} ({desc}): dir {id:?} handle {got:?} disk {expect:?}");
-                    }
-                    if got != expect {
-                        let sig = if id.is_empty() {
-                            "real-root-listing-stale"
-                        } else if desc.starts_with("rename") {
-                            "real-rename-listing-stale"
-                        } else {
-                            "real-listing-stale"
-                        };
-                        out.fail(sig, format!("real history, step {sn} ({desc}): the directory handle of {id:?} lists {got:?} but the disk has {expect:?}"));
-                        return true;
-                    }
-                }
-            }
-            // loaded assets follow the disk (incl. falling back to the other extension after a delete)
-            if let Some(h) = cache.get_cached::<Txt>("sub.two") {
-                if let Ok(fresh) = cache.load_owned::<Txt>("sub.two") {
-                    if h.read().0 != fresh.0 {
-                        out.fail("real-asset-stale", format!("real history, step {sn} ({desc}): asset sub.two holds {:?} but loading it afresh gives {:?}", h.read().0, fresh.0));
-                        return true;
-                    }
-                }
             }
         }
         true
